@@ -663,7 +663,11 @@ class SignedFunction(Function):
     if posonly_kws and not sig.kwargs_name:
       raise error_types.WrongKeywordArgs(sig, args, self.ctx, posonly_kws)
     callargs.update(positional)
-    callargs.update(kws)
+    # A keyword with the same name as a positional-only parameter never binds
+    # that parameter; it can only end up in **kwargs (see below).
+    callargs.update(
+        {k: v for k, v in kws.items() if k not in posonly_names}
+    )
     for key, kwonly in itertools.chain(
         self.get_nondefault_params(), ((key, True) for key in sig.kwonly_params)
     ):
@@ -691,7 +695,7 @@ class SignedFunction(Function):
       if args.starstarargs:
         callargs[kwargs_name] = args.starstarargs.AssignToNewVariable(node)
       else:
-        omit = sig.param_names + sig.kwonly_params
+        omit = sig.param_names[sig.posonly_count :] + sig.kwonly_params
         k = _instances.Dict(self.ctx)
         k.update(node, args.namedargs, omit=omit)
         callargs[kwargs_name] = k.to_variable(node)
